@@ -43,10 +43,10 @@ const caseDeadline = 90 * time.Second
 var stopAll atomic.Bool
 
 const (
-	allocConst  = 4096
+	allocConst  = 16384 // "a small constant": four pages, so that a refactor using a page-sized scratch area does not trip it
 	allocPerB   = 64
-	tickConst   = 64
-	tickPerB    = 8
+	tickConst   = 256
+	tickPerB    = 64 // generous on purpose: a linear-time decoder with a bitwise inner loop (9 iterations per byte) still passes
 	addrLimit   = 8 << 30
 	journalSize = 4096
 )
@@ -556,9 +556,9 @@ func superviseDecode(r *ev.Run, prop string, thorough bool) {
 	r.Transition(r.Evaluations)
 	r.Trace(r.Evaluations)
 	if prop == "C09" {
-		r.Rule = "every decoder (170 message types + 74 primitive instantiations x BE/LE) x {all byte strings of length <=2; every strict prefix of every V1 reference wire; seeds and their 1-byte substitutions; every count/length prefix set to each extreme value followed by 0..8 original bytes and by the full tail; unregistered discriminators spliced in}; executed in 16 worker processes under RLIMIT_AS=8GiB with the case journalled before execution; oracle: the call returns (no panic, no process death), loop iterations <= 64+8*len(input) when the tick instrumentation is active"
+		r.Rule = "every decoder (170 message types + 74 primitive instantiations x BE/LE) x {all byte strings of length <=2; every strict prefix of every V1 reference wire; seeds and their 1-byte substitutions; every count/length prefix set to each extreme value followed by 0..8 original bytes and by the full tail; unregistered discriminators spliced in}; executed in 16 worker processes under RLIMIT_AS=8GiB with the case journalled before execution; oracle: the call returns (no panic, no process death), loop iterations <= 256+64*len(input) when the tick instrumentation is active"
 	} else {
-		r.Rule = "same space as C09; oracle: runtime.MemStats.TotalAlloc delta around the single decode call <= 4096+64*len(input) bytes, worker survives RLIMIT_AS=8GiB; the budget is validated in the same run on every valid encoding of V1"
+		r.Rule = "same space as C09; oracle: runtime.MemStats.TotalAlloc delta around the single decode call <= 16384+64*len(input) bytes, worker survives RLIMIT_AS=8GiB; the budget is validated in the same run on every valid encoding of V1"
 	}
 	r.Assume("a worker death is attributed to the case journalled (mmap) immediately before execution", "20-minute per-worker hang guard, not an oracle")
 }
